@@ -166,6 +166,48 @@ func (q *Query) AllRefs() []From {
 	return out
 }
 
+// ColumnsUsed lists, as "table.column", the columns the query itself (not its
+// subqueries) reads: targets, WHERE, join conditions, GROUP BY.
+func (q *Query) ColumnsUsed() map[string]bool {
+	byAlias := map[string]*Table{}
+	for _, r := range q.Refs() {
+		byAlias[r.Alias] = r.T
+	}
+	out := map[string]bool{}
+	add := func(c *Col) {
+		if c != nil {
+			if t := byAlias[c.Alias]; t != nil {
+				out[t.Name+"."+c.C.Name] = true
+			}
+		}
+	}
+	for _, t := range q.Targets {
+		add(t.C)
+	}
+	for _, g := range q.GroupBy {
+		add(g)
+	}
+	exprs := []Expr{q.Where}
+	for _, j := range q.Joins {
+		exprs = append(exprs, j.On)
+	}
+	for _, e := range exprs {
+		if e != nil {
+			e.walk(func(n Expr) {
+				if c, ok := n.(*Col); ok {
+					add(c)
+				}
+			})
+		}
+	}
+	if q.Union != nil {
+		for k := range q.Union.ColumnsUsed() {
+			out[k] = true
+		}
+	}
+	return out
+}
+
 // Params collects the named parameters used anywhere in the query.
 func (q *Query) Params() Params {
 	p := Params{}
